@@ -22,7 +22,7 @@ RULE = ('names (24, incl. spaces, newlines, %, leading -, non-ASCII, 255 bytes) 
         'outcome class x all dimensions')
 NAMES = ['a.trashinfo.bak', 'a', 'a b', ' lead', 'trail ', 'a\nb', 'a\rb', 'tab\t', '%41', 'a%', '%', '-x', '--', 'é', '日本', '.hidden',
          'a.trashinfo', '*?[', '=', '#', '+', '&;', '"\'', '\\', 'L' * 255]
-QNAMES = ['a', 'trail ', 'a\nb', '%41', '-x', '日本', 'tab\t', 'L' * 255, 'a.trashinfo.bak']
+QNAMES = ['a', 'trail ', 'a\nb', '%41', '-x', '日本', 'tab\t', 'L' * 255, 'a.trashinfo.bak', '.hidden']
 LAYOUTS = ['home', 'top-sticky', 'top-alt', 'trash-dir']
 SORTS = ['date', 'path', 'none']
 SCOPES = ['dir', 'ancestor', 'root', 'path-arg']
